@@ -66,6 +66,21 @@ type c28case struct {
 	Family string `json:"family"` // literal-asset, literal-account, var-account, …
 	Value  string `json:"value"`  // value class
 	Reqs   []Req  `json:"reqs"`
+	// Setup: the first Setup requests are the HISTORY of the case (earlier, valid
+	// transactions that leave the accounts in a given state): they must all succeed and are
+	// not the write under test. Group, when set, refines the vacuity guard (at least one
+	// accepted and one refused write per path, family AND group) without entering the
+	// violation signature.
+	Setup int    `json:"setup,omitempty"`
+	Group string `json:"group,omitempty"`
+}
+
+// guardKey is the key of the vacuity table: path:family, refined by the group.
+func (c c28case) guardKey() string {
+	if c.Group != "" {
+		return c.Path + ":" + c.Family + "/" + c.Group
+	}
+	return c.Path + ":" + c.Family
 }
 
 // id identifies the executed input (distinct count, samples, notes). It is NOT the
@@ -135,50 +150,139 @@ func send(asset, amount, src, dst string) string {
 	return fmt.Sprintf("send [%s %s] (\n source = %s\n destination = %s\n)", asset, amount, src, dst)
 }
 
+// ---- amounts computed by the funding logic, over a history ------------------------------
+//
+// The amount of a posting emitted by a script is not always written in the script: with
+// several sources, overdrafts, caps, portions, `save` or "send all" it is COMPUTED from the
+// balances the earlier transactions left. The family below enumerates the product
+//
+//	state of @a left by the history x overdraft granted to @a by the script x shape of the
+//	source @a sits in x amount sent x runtime/API
+//
+// @b always holds 100 USD, @c never existed. Nothing but the oracle of the property is
+// applied (stored postings well-formed, amounts non-negative integers): a refusal
+// (insufficient funds, compile error) is as good an answer as a commit.
+
+// c28AccountStates: what the earlier transactions left on @a (asset USD).
+var c28AccountStates = []struct {
+	Name    string
+	History []string // postings bodies sent to POST /v2/c28/transactions
+}{
+	{"never-used", nil},
+	{"balance-50", []string{`{"postings":[{"source":"world","destination":"a","asset":"USD","amount":50}]}`}},
+	{"emptied", []string{`{"postings":[{"source":"world","destination":"a","asset":"USD","amount":50}]}`, `{"postings":[{"source":"a","destination":"sink","asset":"USD","amount":50}]}`}},
+	{"overdrawn-by-50", []string{`{"postings":[{"source":"a","destination":"sink","asset":"USD","amount":50}],"force":true}`}},
+}
+
+// c28Overdrafts: the overdraft clause of @a in the script; the limits sit below, at and
+// above the debt (50) of the overdrawn state.
+var c28Overdrafts = []named{
+	{"none", ""}, {"up-to-0", " allowing overdraft up to [USD 0]"}, {"up-to-20", " allowing overdraft up to [USD 20]"},
+	{"up-to-50", " allowing overdraft up to [USD 50]"}, {"up-to-80", " allowing overdraft up to [USD 80]"}, {"unbounded", " allowing unbounded overdraft"},
+}
+
+// c28SentAmounts: less than anything available, more than @a can give, more than everybody
+// can give without an unbounded overdraft, everything.
+var c28SentAmounts = []string{"10", "80", "500", "*"}
+
+// c28SourceShapes: where @a (with its overdraft clause: the argument) sits in the script.
+var c28SourceShapes = []struct {
+	Name   string
+	Script func(a, amount string) string
+}{
+	{"single-source", func(a, n string) string { return send("USD", n, a, "@dst") }},
+	{"first-of-in-order", func(a, n string) string { return send("USD", n, "{\n  "+a+"\n  @b\n }", "@dst") }},
+	{"last-of-in-order", func(a, n string) string { return send("USD", n, "{\n  @b\n  "+a+"\n }", "@dst") }},
+	{"middle-of-in-order", func(a, n string) string { return send("USD", n, "{\n  @c\n  "+a+"\n  @b\n }", "@dst") }},
+	{"capped-first-of-in-order", func(a, n string) string {
+		return send("USD", n, "{\n  max [USD 30] from "+a+"\n  @b\n }", "@dst")
+	}},
+	{"half-of-allotment", func(a, n string) string {
+		return send("USD", n, "{\n  1/2 from "+a+"\n  remaining from @b\n }", "@dst")
+	}},
+	{"in-order-inside-allotment", func(a, n string) string {
+		return send("USD", n, "{\n  1/2 from {\n   "+a+"\n   @b\n  }\n  remaining from @b\n }", "@dst")
+	}},
+	{"after-save", func(a, n string) string {
+		return "save [USD 30] from @a\n" + send("USD", n, "{\n  "+a+"\n  @b\n }", "@dst")
+	}},
+	{"second-send-of-script", func(a, n string) string {
+		return send("USD", "10", a, "@dst") + "\n" + send("USD", n, "{\n  "+a+"\n  @b\n }", "@dst2")
+	}},
+}
+
+func c28FundingCases() []c28case {
+	var out []c28case
+	fundB := post("/v2/c28/transactions", `{"postings":[{"source":"world","destination":"b","asset":"USD","amount":100}]}`)
+	// simplest first: the shapes in menu order, and within a shape the states, overdrafts
+	// and amounts in menu order; the three runtimes side by side
+	for _, sh := range c28SourceShapes {
+		for _, st := range c28AccountStates {
+			for _, od := range c28Overdrafts {
+				for _, n := range c28SentAmounts {
+					for _, rt := range c28Runtimes {
+						reqs := []Req{fundB}
+						for _, h := range st.History {
+							reqs = append(reqs, post("/v2/c28/transactions", h))
+						}
+						setup := len(reqs)
+						reqs = append(reqs, scriptReq(rt.API, "c28", sh.Script("@a"+od.Val, n), nil, rt.Runtime))
+						out = append(out, c28case{Path: rt.Path, Family: "funding", Group: sh.Name,
+							Value: sh.Name + ":" + st.Name + ":overdraft-" + od.Name + ":send-" + n, Reqs: reqs, Setup: setup})
+					}
+				}
+			}
+		}
+	}
+	return out
+}
+
 func c28Cases(bases c28Bases) ([]c28case, error) {
 	var out []c28case
 	for _, rt := range c28Runtimes {
 		// A. literal assets
 		for _, a := range c28Assets {
-			out = append(out, c28case{rt.Path, "literal-asset", a.Name, []Req{scriptReq(rt.API, "c28", send(a.Val, "10", "@world", "@dst"), nil, rt.Runtime)}})
+			out = append(out, c28case{Path: rt.Path, Family: "literal-asset", Value: a.Name, Reqs: []Req{scriptReq(rt.API, "c28", send(a.Val, "10", "@world", "@dst"), nil, rt.Runtime)}})
 		}
 		// B. literal accounts (as destination and as source)
 		for _, a := range c28Accounts {
-			out = append(out, c28case{rt.Path, "literal-destination", a.Name, []Req{scriptReq(rt.API, "c28", send("USD", "10", "@world", "@"+a.Val), nil, rt.Runtime)}})
-			out = append(out, c28case{rt.Path, "literal-source", a.Name, []Req{scriptReq(rt.API, "c28", send("USD", "10", "@"+a.Val+" allowing unbounded overdraft", "@dst"), nil, rt.Runtime)}})
+			out = append(out, c28case{Path: rt.Path, Family: "literal-destination", Value: a.Name, Reqs: []Req{scriptReq(rt.API, "c28", send("USD", "10", "@world", "@"+a.Val), nil, rt.Runtime)}})
+			out = append(out, c28case{Path: rt.Path, Family: "literal-source", Value: a.Name, Reqs: []Req{scriptReq(rt.API, "c28", send("USD", "10", "@"+a.Val+" allowing unbounded overdraft", "@dst"), nil, rt.Runtime)}})
 		}
 		// C. variables
 		for _, a := range c28Accounts {
-			out = append(out, c28case{rt.Path, "var-account", a.Name, []Req{scriptReq(rt.API, "c28", "vars {\n account $d\n}\n"+send("USD", "10", "@world", "$d"), map[string]string{"d": a.Val}, rt.Runtime)}})
-			out = append(out, c28case{rt.Path, "var-account-source", a.Name, []Req{scriptReq(rt.API, "c28", "vars {\n account $s\n}\n"+send("USD", "10", "$s allowing unbounded overdraft", "@dst"), map[string]string{"s": a.Val}, rt.Runtime)}})
+			out = append(out, c28case{Path: rt.Path, Family: "var-account", Value: a.Name, Reqs: []Req{scriptReq(rt.API, "c28", "vars {\n account $d\n}\n"+send("USD", "10", "@world", "$d"), map[string]string{"d": a.Val}, rt.Runtime)}})
+			out = append(out, c28case{Path: rt.Path, Family: "var-account-source", Value: a.Name, Reqs: []Req{scriptReq(rt.API, "c28", "vars {\n account $s\n}\n"+send("USD", "10", "$s allowing unbounded overdraft", "@dst"), map[string]string{"s": a.Val}, rt.Runtime)}})
 		}
 		for _, a := range c28Assets {
-			out = append(out, c28case{rt.Path, "var-asset", a.Name, []Req{scriptReq(rt.API, "c28", "vars {\n asset $a\n}\n"+send("$a", "10", "@world", "@dst"), map[string]string{"a": a.Val}, rt.Runtime)}})
+			out = append(out, c28case{Path: rt.Path, Family: "var-asset", Value: a.Name, Reqs: []Req{scriptReq(rt.API, "c28", "vars {\n asset $a\n}\n"+send("$a", "10", "@world", "@dst"), map[string]string{"a": a.Val}, rt.Runtime)}})
 		}
 		for _, m := range c28Monetaries {
-			out = append(out, c28case{rt.Path, "var-monetary", m.Name, []Req{scriptReq(rt.API, "c28", "vars {\n monetary $m\n}\nsend $m (\n source = @world\n destination = @dst\n)", map[string]string{"m": m.Val}, rt.Runtime)}})
+			out = append(out, c28case{Path: rt.Path, Family: "var-monetary", Value: m.Name, Reqs: []Req{scriptReq(rt.API, "c28", "vars {\n monetary $m\n}\nsend $m (\n source = @world\n destination = @dst\n)", map[string]string{"m": m.Val}, rt.Runtime)}})
 		}
 		// C'. amounts computed by the script (monetary arithmetic, amounts from a number variable)
 		for _, x := range c28Computed {
-			out = append(out, c28case{rt.Path, "computed-amount", x.Name, []Req{scriptReq(rt.API, "c28", "send "+x.Val+" (\n source = @world\n destination = @dst\n)", nil, rt.Runtime)}})
+			out = append(out, c28case{Path: rt.Path, Family: "computed-amount", Value: x.Name, Reqs: []Req{scriptReq(rt.API, "c28", "send "+x.Val+" (\n source = @world\n destination = @dst\n)", nil, rt.Runtime)}})
 		}
 		// D. metadata-sourced values: the stored metadata value is free text
 		setMeta := func(v string) Req { return post("/v2/c28/accounts/src/metadata", encJSON(map[string]any{"k": v})) }
 		for _, a := range c28Accounts {
-			out = append(out, c28case{rt.Path, "meta-account", a.Name, []Req{setMeta(a.Val),
+			out = append(out, c28case{Path: rt.Path, Family: "meta-account", Value: a.Name, Reqs: []Req{setMeta(a.Val),
 				scriptReq(rt.API, "c28", "vars {\n account $d = meta(@src, \"k\")\n}\n"+send("USD", "10", "@world", "$d"), map[string]string{}, rt.Runtime)}})
-			out = append(out, c28case{rt.Path, "meta-account-source", a.Name, []Req{setMeta(a.Val),
+			out = append(out, c28case{Path: rt.Path, Family: "meta-account-source", Value: a.Name, Reqs: []Req{setMeta(a.Val),
 				scriptReq(rt.API, "c28", "vars {\n account $s = meta(@src, \"k\")\n}\n"+send("USD", "10", "$s allowing unbounded overdraft", "@dst"), map[string]string{}, rt.Runtime)}})
 		}
 		for _, a := range c28Assets {
-			out = append(out, c28case{rt.Path, "meta-asset", a.Name, []Req{setMeta(a.Val),
+			out = append(out, c28case{Path: rt.Path, Family: "meta-asset", Value: a.Name, Reqs: []Req{setMeta(a.Val),
 				scriptReq(rt.API, "c28", "vars {\n asset $a = meta(@src, \"k\")\n}\n"+send("$a", "10", "@world", "@dst"), map[string]string{}, rt.Runtime)}})
 		}
 		for _, m := range c28Monetaries {
-			out = append(out, c28case{rt.Path, "meta-monetary", m.Name, []Req{setMeta(m.Val),
+			out = append(out, c28case{Path: rt.Path, Family: "meta-monetary", Value: m.Name, Reqs: []Req{setMeta(m.Val),
 				scriptReq(rt.API, "c28", "vars {\n monetary $m = meta(@src, \"k\")\n}\nsend $m (\n source = @world\n destination = @dst\n)", map[string]string{}, rt.Runtime)}})
 		}
 	}
+	// E. amounts computed by the FUNDING logic over a HISTORY (see c28Funding)
+	out = append(out, c28FundingCases()...)
 	// F. transaction templates of a schema (literal in the template, values in the variables)
 	for _, trt := range []struct{ Path, Runtime string }{{"template-machine", "machine"}, {"template-interpreter", "experimental-interpreter"}} {
 		schema := func(script string) Req {
@@ -191,12 +295,12 @@ func c28Cases(bases c28Bases) ([]c28case, error) {
 			return post("/v2/c28/transactions", encJSON(map[string]any{"script": map[string]any{"template": "T", "vars": vars}}), KV{"schemaVersion", "v1"})
 		}
 		for _, a := range c28Assets {
-			out = append(out, c28case{trt.Path, "literal-asset", a.Name, []Req{schema(send(a.Val, "10", "@world", "@dst")), tpl(map[string]any{})}})
-			out = append(out, c28case{trt.Path, "var-asset", a.Name, []Req{schema("vars {\n asset $a\n}\n" + send("$a", "10", "@world", "@dst")), tpl(map[string]any{"a": a.Val})}})
+			out = append(out, c28case{Path: trt.Path, Family: "literal-asset", Value: a.Name, Reqs: []Req{schema(send(a.Val, "10", "@world", "@dst")), tpl(map[string]any{})}})
+			out = append(out, c28case{Path: trt.Path, Family: "var-asset", Value: a.Name, Reqs: []Req{schema("vars {\n asset $a\n}\n" + send("$a", "10", "@world", "@dst")), tpl(map[string]any{"a": a.Val})}})
 		}
 		for _, a := range c28Accounts {
-			out = append(out, c28case{trt.Path, "literal-destination", a.Name, []Req{schema(send("USD", "10", "@world", "@"+a.Val)), tpl(map[string]any{})}})
-			out = append(out, c28case{trt.Path, "var-account", a.Name, []Req{schema("vars {\n account $d\n}\n" + send("USD", "10", "@world", "$d")), tpl(map[string]any{"d": a.Val})}})
+			out = append(out, c28case{Path: trt.Path, Family: "literal-destination", Value: a.Name, Reqs: []Req{schema(send("USD", "10", "@world", "@"+a.Val)), tpl(map[string]any{})}})
+			out = append(out, c28case{Path: trt.Path, Family: "var-account", Value: a.Name, Reqs: []Req{schema("vars {\n account $d\n}\n" + send("USD", "10", "@world", "$d")), tpl(map[string]any{"d": a.Val})}})
 		}
 	}
 	// G. the postings path
@@ -221,14 +325,14 @@ func c28Cases(bases c28Bases) ([]c28case, error) {
 			forced = func(b string) string { return b }
 		}
 		for _, a := range c28Accounts {
-			out = append(out, c28case{p.Path, "source", a.Name, []Req{wrap(forced(postingBody(a.Val, "dst", "USD", srcAmount)))}})
-			out = append(out, c28case{p.Path, "destination", a.Name, []Req{wrap(postingBody("world", a.Val, "USD", "10"))}})
+			out = append(out, c28case{Path: p.Path, Family: "source", Value: a.Name, Reqs: []Req{wrap(forced(postingBody(a.Val, "dst", "USD", srcAmount)))}})
+			out = append(out, c28case{Path: p.Path, Family: "destination", Value: a.Name, Reqs: []Req{wrap(postingBody("world", a.Val, "USD", "10"))}})
 		}
 		for _, a := range c28Assets {
-			out = append(out, c28case{p.Path, "asset", a.Name, []Req{wrap(postingBody("world", "dst", a.Val, "10"))}})
+			out = append(out, c28case{Path: p.Path, Family: "asset", Value: a.Name, Reqs: []Req{wrap(postingBody("world", "dst", a.Val, "10"))}})
 		}
 		for _, a := range c28Amounts {
-			out = append(out, c28case{p.Path, "amount", a.Name, []Req{wrap(postingBody("world", "dst", "USD", a.Val))}})
+			out = append(out, c28case{Path: p.Path, Family: "amount", Value: a.Name, Reqs: []Req{wrap(postingBody("world", "dst", "USD", a.Val))}})
 		}
 		// the ill-formed posting is not the first one
 		second := func(src, dst, asset, amount string, force ...bool) Req {
@@ -240,14 +344,14 @@ func c28Cases(bases c28Bases) ([]c28case, error) {
 			return wrap(b)
 		}
 		for _, a := range c28Accounts {
-			out = append(out, c28case{p.Path, "second-posting-source", a.Name, []Req{second(a.Val, "dst", "USD", srcAmount, true)}})
-			out = append(out, c28case{p.Path, "second-posting-destination", a.Name, []Req{second("world", a.Val, "USD", "10")}})
+			out = append(out, c28case{Path: p.Path, Family: "second-posting-source", Value: a.Name, Reqs: []Req{second(a.Val, "dst", "USD", srcAmount, true)}})
+			out = append(out, c28case{Path: p.Path, Family: "second-posting-destination", Value: a.Name, Reqs: []Req{second("world", a.Val, "USD", "10")}})
 		}
 		for _, a := range c28Assets {
-			out = append(out, c28case{p.Path, "second-posting-asset", a.Name, []Req{second("world", "dst", a.Val, "10")}})
+			out = append(out, c28case{Path: p.Path, Family: "second-posting-asset", Value: a.Name, Reqs: []Req{second("world", "dst", a.Val, "10")}})
 		}
 		for _, a := range c28Amounts {
-			out = append(out, c28case{p.Path, "second-posting-amount", a.Name, []Req{second("world", "dst", "USD", a.Val)}})
+			out = append(out, c28case{Path: p.Path, Family: "second-posting-amount", Value: a.Name, Reqs: []Req{second("world", "dst", "USD", a.Val)}})
 		}
 	}
 	// H. import of a log stream with an ill-formed posting
@@ -342,8 +446,8 @@ func c28Cases(bases c28Bases) ([]c28case, error) {
 			if old, ok := getAt(base, append(append(ptr{}, postingPtr...), field)).(string); ok && old == repl {
 				staleSame["import-stale-hash:"+family] = true // the "mutation" is the identity: the exported hash still matches
 			}
-			out = append(out, c28case{"import-stale-hash", family, value, []Req{imp("c28imp", prefix+raw)}})
-			out = append(out, c28case{"import-no-hash-ledger", family, value, []Req{imp("c28impnh", prefix+raw)}})
+			out = append(out, c28case{Path: "import-stale-hash", Family: family, Value: value, Reqs: []Req{imp("c28imp", prefix+raw)}})
+			out = append(out, c28case{Path: "import-no-hash-ledger", Family: family, Value: value, Reqs: []Req{imp("c28impnh", prefix+raw)}})
 			// with the hash recomputed the way any client can (Log.ComputeHash is a public algorithm)
 			var l ledger.Log
 			if err := json.Unmarshal([]byte(raw), &l); err == nil {
@@ -356,7 +460,7 @@ func c28Cases(bases c28Bases) ([]c28case, error) {
 				if hash != nil {
 					// the JSON text is written by hand (the client is not bound to Go's marshaller)
 					forged := encJSON(replaceAt(mut, ptr{"hash"}, base64.StdEncoding.EncodeToString(hash), false)) + "\n"
-					out = append(out, c28case{"import-forged-hash", family, value, []Req{imp("c28imp", prefix+forged)}})
+					out = append(out, c28case{Path: "import-forged-hash", Family: family, Value: value, Reqs: []Req{imp("c28imp", prefix+forged)}})
 				}
 			}
 		}
@@ -549,6 +653,15 @@ func execC28(boot *pgsim.DB, c *c28case) caseResult {
 		}
 		trace = append(trace, fmt.Sprintf("%s -> %s", r, resp.short()))
 		lastOK = resp.Status >= 200 && resp.Status < 300
+		if i < c.Setup {
+			// the history of the case: valid transactions, inspected with everything else after
+			// the write under test
+			if !lastOK {
+				res.Engine = fmt.Sprintf("%s: history request %d was refused: %s -> %s", c.id(), i, r, resp.short())
+				return res
+			}
+			continue
+		}
 		if !lastOK {
 			if resp.Status >= 500 {
 				res.Counts["5xx"]++ // not C28's business (C38 reports those); the write did not succeed
@@ -590,11 +703,11 @@ func execC28(boot *pgsim.DB, c *c28case) caseResult {
 	if lastOK {
 		res.Counts["accepted"]++
 		res.Counts["accepted:"+c.Path]++
-		res.Counts["accepted:"+c.Path+":"+c.Family]++
+		res.Counts["accepted:"+c.guardKey()]++
 	} else {
 		res.Counts["rejected"]++
 		res.Counts["rejected:"+c.Path]++
-		res.Counts["rejected:"+c.Path+":"+c.Family]++
+		res.Counts["rejected:"+c.guardKey()]++
 	}
 	res.Key = c.id()
 	res.Sample = map[string]any{"case": c.id(), "accepted": lastOK}
@@ -750,7 +863,7 @@ func runC28(r *ev.Run) (ev.Coverage, []string) {
 	for i := range cases {
 		c := &cases[i]
 		byPath[c.Path] = counts["accepted:"+c.Path]
-		k := c.Path + ":" + c.Family
+		k := c.guardKey()
 		byFamily[k] = fmt.Sprintf("%d/%d", counts["accepted:"+k], counts["rejected:"+k])
 	}
 	// Vacuity guards. They hold on a complete run whatever the verdict: every menu has at
@@ -793,7 +906,7 @@ func runC28(r *ev.Run) (ev.Coverage, []string) {
 		"cases":                                len(cases),
 		"exhaustive":                           exhaustive,
 		"samples":                              samples.List(),
-		"rule":                                 "every value of the asset / account / monetary / amount menus (edges of the lexer rules ASSET and ACCOUNT and of the pkg/assets and pkg/accounts patterns) through: script literals, script variables, meta()-sourced variables (the stored metadata value being the ill-formed text), amounts computed by monetary arithmetic, on the machine, the experimental interpreter and the v1 API; transaction templates of a schema (both runtimes); the postings path (v2, v1, bulk; the ill-formed posting first or second); import of a log stream whose NEW_TRANSACTION posting (only / second of two) or REVERTED_TRANSACTION reverting posting is ill-formed (stale hash, recomputed hash chain, ledger without hashed logs). After every 2xx answer every transaction of every ledger (ListTransactions following cursors, tables transactions and moves by raw SQL) must only contain postings matching the patterns with a non-negative integer amount; a 2xx write that leaves no posting to inspect is an engine error; per (path, origin of the value) at least one write must be accepted and one refused; distinct_nontrivial = cases whose write succeeded; quick and thorough run the same finite menu (the tiers differ in time budget only)",
+		"rule":                                 "every value of the asset / account / monetary / amount menus (edges of the lexer rules ASSET and ACCOUNT and of the pkg/assets and pkg/accounts patterns) through: script literals, script variables, meta()-sourced variables (the stored metadata value being the ill-formed text), amounts computed by monetary arithmetic, on the machine, the experimental interpreter and the v1 API; AMOUNTS COMPUTED BY THE FUNDING LOGIC OVER A HISTORY (family funding, same three runtimes): the product {state of @a left by earlier transactions: never used, balance 50, emptied (50 in, 50 out), overdrawn by 50 (forced posting)} x {overdraft the script grants @a: none, up to 0, 20 (below the debt), 50 (the debt), 80 (above it), unbounded} x {where @a sits: single source, first / last / middle of an in-order source, capped (max) first of an in-order source, half of an allotment, in-order source inside an allotment, after `save [USD 30] from @a`, second send of a script whose first send already drew on @a} x {amount sent: 10, 80, 500, * (send all)}, with @b holding 100 and @c never used: the history requests must succeed, the script may be refused (insufficient funds, compile error) or committed, and what is stored is inspected; transaction templates of a schema (both runtimes); the postings path (v2, v1, bulk; the ill-formed posting first or second); import of a log stream whose NEW_TRANSACTION posting (only / second of two) or REVERTED_TRANSACTION reverting posting is ill-formed (stale hash, recomputed hash chain, ledger without hashed logs). After every 2xx answer every transaction of every ledger (ListTransactions following cursors, tables transactions and moves by raw SQL) must only contain postings matching the patterns with a non-negative integer amount; a 2xx write that leaves no posting to inspect is an engine error; per (path, origin of the value — for the funding family: per source shape) at least one write must be accepted and one refused; distinct_nontrivial = cases whose write succeeded; quick and thorough run the same finite menu (the tiers differ in time budget only)",
 	}
 	return cov, assumptions
 }
